@@ -18,6 +18,10 @@ def build_inputs(c, t, rng):
         for kind, el, raw in reqgen.numeric_extremes(r):
             inputs.append(({"route": r.route, "el": el, "kind": kind}, raw))
     for r in valid:
+        if r.route in ("file-upload", "form-get", "static-query"):
+            for kind, el, raw in reqgen.numeric_target_extremes(r):
+                inputs.append(({"route": r.route, "el": el, "kind": kind}, raw))
+    for r in valid:
         for kind, el, raw in reqgen.line_ending_variants(r):
             inputs.append(({"route": r.route, "el": el, "kind": kind}, raw))
     for r in valid:
